@@ -13,7 +13,7 @@
 use super::*;
 use std::sync::atomic::{AtomicBool, AtomicPtr, AtomicUsize, Ordering};
 
-#[path = "/verif/kani/libc_model.rs"]
+#[path = "libc_model.rs"]
 mod lm;
 
 // ---- the map stand-ins: fixed capacity, loops bounded by a constant -------------------------------
